@@ -329,6 +329,8 @@ class Daemon(object):
         serializer_id = serializers.MarshalSerializer.serializer_id
         msg = None
         msg_seq = 0
+        # response annotations left behind in this thread by an earlier call must not end up in this answer
+        current_context.response_annotations = {}
         try:
             msg = protocol.recv_stub(conn, [protocol.MSG_CONNECT])
             msg_seq = msg.seq
@@ -404,6 +406,8 @@ class Daemon(object):
             request_flags = msg.flags
             request_seq = msg.seq
             request_serializer_id = msg.serializer_id
+            # every request starts without response annotations (a call that raised does not clear them)
+            current_context.response_annotations = {}
             if msg.flags & protocol.FLAGS_CORR_ID:
                 current_context.correlation_id = uuid.UUID(bytes=msg.corr_id)
             else:
